@@ -319,6 +319,21 @@ def rule_r2(ctx) -> List[R.Inst]:
                 uses = [n for n in walk_no_nested(vm.node) if isinstance(n, ast.Assign) and isinstance(n.targets[0], ast.Subscript) and
                         unparse(n.targets[0].value) == "mask" and unparse(n.targets[0].slice).replace(" ", "") in (f"list({D_}.values())", f"[*{D_}.values()]")]
                 first_form = (lp_, unparse(sd[0].args[0]) == f"cols[{ixv}]" and unparse(sd[0].args[1]) == ixv and bool(uses))
+        if first_form is None and isinstance(lp_.target, (ast.Name, ast.Tuple)) and len(lp_.body) == 1 and isinstance(lp_.body[0], ast.Assign) and \
+                isinstance(lp_.body[0].targets[0], ast.Subscript) and isinstance(lp_.body[0].targets[0].value, ast.Name):
+            # the dict filled by a plain store: `D[k] = D.get(k) or ix` takes a stored first position 0 for "nothing stored" (0 is
+            # falsy) and overwrites it — the falsy-zero idiom; `D[k] = D.get(k, ix)` is setdefault
+            st_ = lp_.body[0]
+            D_ = st_.targets[0].value.id
+            k_ = unparse(st_.targets[0].slice)
+            v_ = st_.value
+            if isinstance(v_, ast.BoolOp) and isinstance(v_.op, ast.Or) and isinstance(v_.values[0], ast.Call) and call_name(v_.values[0]) == "get" and \
+                    unparse(v_.values[0].func.value) == D_ and len(v_.values[0].args) == 1 and unparse(v_.values[0].args[0]) == k_:
+                insts.append(R.viol(rid, "no-jack", file, st_.lineno,
+                                    f"'{unparse(st_)}' keeps the first position of a column unless that position is 0: `{D_}.get(..) or ..` reads a "
+                                    f"stored 0 as 'nothing stored' and overwrites it, so the earliest note of the group loses its place to a later "
+                                    f"one of its column", construct=unparse(st_)[:160]))
+                return insts
     if first_form is not None:
         insts.append(R.ok(rid, "no-jack", file, first_form[0].lineno, idiom="first position per distinct column of the window (dict.setdefault in window order)") if first_form[1] else
                      R.viol(rid, "no-jack", file, first_form[0].lineno,
